@@ -5,6 +5,7 @@ Only property theorems live here (helper lemmas: `Lemmas/Select.lean`).
 import Bermuda.Model.Select
 import Bermuda.Spec.C11
 import Bermuda.Lemmas.Select
+import Bermuda.Properties.C01
 namespace Bermuda.Properties.C11
 open Bermuda Std Bermuda.Spec.C11
 
@@ -186,5 +187,380 @@ theorem split_partition {t : List Cell} (ht : Canon t) (keys : List String) :
       exact flatMap_congr_mem _ _ _ (fun p hp => (inv.grp p hp).1)
     rw [h]
     exact flatMap_filter_perm (splitKey keys) t _ inv.nodup inv.cov
+
+/-! ### 4. select -/
+
+theorem select_cmp (a b : Cell) (keys : List String) :
+    Cell.cmp (a.select keys) (b.select keys) = Cell.cmp a b := rfl
+
+/-- **select keeps every cell** (same number, same class and coordinates, same order) and
+restricts its values to the listed keys; nothing is reordered or refused on a canonical
+triangle whose cells satisfy the constructor's date rules -/
+theorem select_keeps_cells {t : List Cell} (ht : Canon t) (hd : ∀ c ∈ t, c.datesOk = true)
+    (keys : List String) :
+    Triangle.select t keys = .ok (t.map (fun c => c.select keys)) := by
+  unfold Triangle.select
+  have hm : t.mapM (fun c => (c.select keys).mk?) = .ok (t.map (fun c => c.select keys)) := by
+    apply mapM_ok_of_forall
+    intro c hc
+    have : (c.select keys).datesOk = true := hd c hc
+    simp [Cell.mk?, this]
+  simp only [hm, bind, Except.bind]
+  unfold Triangle.ofCells
+  have hk : kindsConsistent (t.map (fun c => c.select keys)) = true := by
+    have := ht.2
+    unfold kindsConsistent at *
+    simpa [List.all_map, Function.comp_def, Cell.select] using this
+  rw [hk]
+  simp only [if_true]
+  congr 1
+  apply List.mergeSort_of_pairwise
+  rw [List.pairwise_map]
+  exact ht.1.imp (fun {a b} h => by simpa [Cell.le, select_cmp] using h)
+
+theorem selectSpec_map (t : List Cell) (keys : List String) :
+    selectSpec t keys (t.map (fun c => c.select keys)) = true := by
+  simp only [selectSpec, List.length_map, beq_self_eq_true, Bool.true_and, List.all_eq_true]
+  intro p hp
+  obtain ⟨c, o⟩ := p
+  have : o = c.select keys := by
+    induction t with
+    | nil => simp at hp
+    | cons a t ih =>
+      simp only [List.map_cons, List.zip_cons_cons, List.mem_cons, Prod.mk.injEq] at hp
+      rcases hp with ⟨rfl, rfl⟩ | hp
+      · rfl
+      · exact ih hp
+  subst this
+  simp [Cell.select, Cell.coord]
+
+/-! ### 5. extract -/
+
+/-- **extract returns one entry per cell, in the cells' order** -/
+theorem extract_length_order (t : List Cell) (f : String) :
+    (Triangle.extract t f).length = t.length ∧
+    ∀ i (h : i < t.length), (Triangle.extract t f)[i]? = some ((t[i].values.get? f).getD .none) := by
+  refine ⟨by simp [Triangle.extract], fun i h => ?_⟩
+  simp [Triangle.extract, List.getElem?_map, List.getElem?_eq_getElem h]
+
+theorem extractWith_length_order {α} (t : List Cell) (f : Cell → α) :
+    (Triangle.extractWith t f).length = t.length ∧
+    ∀ i (h : i < t.length), (Triangle.extractWith t f)[i]? = some (f t[i]) := by
+  refine ⟨by simp [Triangle.extractWith], fun i h => ?_⟩
+  simp [Triangle.extractWith, List.getElem?_map, List.getElem?_eq_getElem h]
+
+/-! ### 6. `t[period, evaluation, metadata]` -/
+
+/-- the result of `__getitem__` as a function of the filtered cell list -/
+def itemResult (p e : DateIdx) (m : MetaIdx) (r : List Cell) : Except Err (List Cell ⊕ Cell) :=
+  if p.isSlice || e.isSlice || m.isSlice then .ok (.inl r)
+  else match r with
+    | [] => .error .indexError
+    | c :: _ => .ok (.inr c)
+
+theorem date_between_self (d x : Date) : (decide (d ≤ x) && decide (x ≤ d)) = (x == d) := by
+  by_cases h : x = d
+  · subst h; simp [Date.le_refl]
+  · have : ¬ (d ≤ x ∧ x ≤ d) := fun hh => h (Date.le_antisymm hh.2 hh.1)
+    have h' : (x == d) = false := by simpa using h
+    rw [h']
+    by_cases h1 : d ≤ x <;> by_cases h2 : x ≤ d <;> simp_all
+
+/-- what a period / evaluation index keeps -/
+def idxKeep : DateIdx → Date → Bool
+  | .scalar d, x => x == d
+  | .slice lo hi, x => inDates lo hi x
+  | .bad, _ => false
+
+def metaKeep : MetaIdx → Cell → Bool
+  | .is md, c => c.md == md
+  | _, _ => true
+
+theorem itemKeep_eq (p e : DateIdx) (m : MetaIdx) (c : Cell) :
+    itemKeep p e m c = (metaKeep m c && idxKeep p c.ps && idxKeep e c.ev) := by
+  cases m <;> cases p <;> cases e <;> rfl
+
+theorem periodBounds_keep {p : DateIdx} {ps pe : Date} (h : p.periodBounds = .ok (ps, pe)) (x : Date)
+    (hx : Date.min ≤ x ∧ x ≤ Date.max) : (decide (ps ≤ x) && decide (x ≤ pe)) = idxKeep p x := by
+  cases p with
+  | scalar d =>
+    simp only [DateIdx.periodBounds, Except.ok.injEq, Prod.mk.injEq] at h
+    obtain ⟨rfl, rfl⟩ := h
+    exact date_between_self _ x
+  | slice lo hi =>
+    simp only [DateIdx.periodBounds, Except.ok.injEq, Prod.mk.injEq] at h
+    obtain ⟨rfl, rfl⟩ := h
+    cases lo <;> cases hi <;> simp [idxKeep, inDates, hx.1, hx.2]
+  | bad => cases h
+
+theorem evalBounds_keep {e : DateIdx} {es ee : Option Date} (h : e.evalBounds = .ok (es, ee)) (c : Cell) :
+    clipKeep { minEval := es, maxEval := ee } .month c = idxKeep e c.ev := by
+  cases e with
+  | scalar d =>
+    simp only [DateIdx.evalBounds, Except.ok.injEq, Prod.mk.injEq] at h
+    obtain ⟨rfl, rfl⟩ := h
+    simpa [clipKeep, inDates, inLags, idxKeep] using date_between_self d c.ev
+  | slice lo hi =>
+    simp only [DateIdx.evalBounds, Except.ok.injEq, Prod.mk.injEq] at h
+    obtain ⟨rfl, rfl⟩ := h
+    simp [clipKeep, inDates, inLags, idxKeep]
+  | bad => cases h
+
+/-- `__getitem__` after the metadata stage -/
+def tailPipe (filtered : List Cell) (p e : DateIdx) (m : MetaIdx) : Except Err (List Cell ⊕ Cell) := do
+  let (ps, pe) ← p.periodBounds
+  let filtered ← Triangle.filterP filtered (fun c => ps ≤ c.ps && c.ps ≤ pe)
+  let (es, ee) ← e.evalBounds
+  let clipped ← Triangle.clipFull filtered { minEval := es, maxEval := ee }
+  if p.isSlice || e.isSlice || m.isSlice then
+    return .inl clipped
+  else
+    match clipped with
+    | [] => throw .indexError
+    | c :: _ => return .inr c
+
+theorem getItem_unfold (t : List Cell) (p e : DateIdx) (m : MetaIdx) :
+    Triangle.getItem t p e m =
+      (match m with
+        | .is md => Triangle.filterP t (fun c => c.md == md)
+        | _ => pure t) >>= fun f => tailPipe f p e m := by
+  unfold Triangle.getItem tailPipe
+  cases m <;> rfl
+
+theorem tailPipe_eq {f : List Cell} (hf : Canon f) (hr : ∀ c ∈ f, Date.min ≤ c.ps ∧ c.ps ≤ Date.max)
+    (p e : DateIdx) (m : MetaIdx) (hp : p ≠ .bad) (he : e ≠ .bad) :
+    tailPipe f p e m = itemResult p e m (f.filter (fun c => idxKeep p c.ps && idxKeep e c.ev)) := by
+  obtain ⟨ps, pe, hpb⟩ : ∃ ps pe, p.periodBounds = .ok (ps, pe) := by
+    cases p with
+    | scalar d => exact ⟨d, d, rfl⟩
+    | slice s e => exact ⟨_, _, rfl⟩
+    | bad => exact absurd rfl hp
+  obtain ⟨es, ee, heb⟩ : ∃ es ee, e.evalBounds = .ok (es, ee) := by
+    cases e with
+    | scalar d => exact ⟨some d, some d, rfl⟩
+    | slice s e => exact ⟨_, _, rfl⟩
+    | bad => exact absurd rfl he
+  have c2 : Canon (f.filter (fun c => decide (ps ≤ c.ps) && decide (c.ps ≤ pe))) :=
+    hf.sublist List.filter_sublist
+  have key : f.filter (fun c => idxKeep p c.ps && idxKeep e c.ev) =
+      ((f.filter (fun c => decide (ps ≤ c.ps) && decide (c.ps ≤ pe))).filter
+        (clipKeep { minEval := es, maxEval := ee } .month)) := by
+    rw [List.filter_filter]
+    apply List.filter_congr
+    intro c hc
+    rw [periodBounds_keep hpb c.ps (hr c hc), evalBounds_keep heb c]
+    simp [Bool.and_comm]
+  unfold tailPipe
+  simp only [hpb, heb, bind, Except.bind, filter_unchanged_sorted hf,
+    clip_exact c2 { minEval := es, maxEval := ee } .month rfl, ← key]
+  unfold itemResult
+  split
+  · rfl
+  · cases f.filter (fun c => idxKeep p c.ps && idxKeep e c.ev) <;> rfl
+
+/-- **indexing equals the corresponding filter**: for date or slice indices,
+`t[period, evaluation, metadata]` is the filter by `itemKeep` (period start within the period
+index, evaluation date within the evaluation index, metadata equal to the metadata index — all
+inclusive, an absent slice end unbounded); a triangle when some index is a slice, else the first
+such cell (`IndexError` when there is none) -/
+theorem getItem_eq_filter {t : List Cell} (ht : Canon t)
+    (hr : ∀ c ∈ t, Date.min ≤ c.ps ∧ c.ps ≤ Date.max)
+    (p e : DateIdx) (m : MetaIdx) (hp : p ≠ .bad) (he : e ≠ .bad) :
+    Triangle.getItem t p e m = itemResult p e m (t.filter (itemKeep p e m)) := by
+  rw [getItem_unfold]
+  have hk : t.filter (itemKeep p e m) =
+      (t.filter (metaKeep m)).filter (fun c => idxKeep p c.ps && idxKeep e c.ev) := by
+    rw [List.filter_filter]
+    apply List.filter_congr
+    intro c _
+    rw [itemKeep_eq]
+    simp [Bool.and_comm, Bool.and_left_comm, Bool.and_assoc]
+  have hf : Canon (t.filter (metaKeep m)) := ht.sublist List.filter_sublist
+  have hr' : ∀ c ∈ t.filter (metaKeep m), Date.min ≤ c.ps ∧ c.ps ≤ Date.max :=
+    fun c hc => hr c (List.mem_filter.mp hc).1
+  have h1 : (match m with
+      | .is md => Triangle.filterP t (fun c => c.md == md)
+      | _ => (pure t : Except Err (List Cell))) = .ok (t.filter (metaKeep m)) := by
+    cases m with
+    | is md => exact filter_unchanged_sorted ht _
+    | none => exact congrArg Except.ok (List.filter_eq_self.mpr (fun _ _ => rfl)).symm
+    | all => exact congrArg Except.ok (List.filter_eq_self.mpr (fun _ _ => rfl)).symm
+  rw [h1, hk]
+  exact tailPipe_eq hf hr' p e m hp he
+
+/-- a non-date, non-slice period or evaluation index is refused -/
+theorem getItem_bad_period (t : List Cell) (e : DateIdx) :
+    Triangle.getItem t .bad e .none = .error .valueError := rfl
+
+/-! ### 7. right_edge -/
+
+/-- the list `right_edge` hands to the constructor: per slice, per period, the last cell by
+evaluation date -/
+def rightEdgeRows (t : List Cell) : List Cell :=
+  (Triangle.slices t).flatMap fun p =>
+    (groupBy (fun c : Cell => (c.ps, c.pe)) p.2).filterMap fun q =>
+      lastBy? (fun a b => Date.cmp a.ev b.ev != .gt) q.2
+
+theorem rightEdge_eq (t : List Cell) : Triangle.rightEdge t = Triangle.ofCells (rightEdgeRows t) := rfl
+
+/-- every cell of `right_edge` is a cell of the triangle and the result is in canonical
+order. The full statement is `rightEdge_spec` below. -/
+theorem rightEdge_subset_sorted {t r : List Cell} (h : Triangle.rightEdge t = .ok r) :
+    (∀ c ∈ r, c ∈ t) ∧ r.Pairwise (fun a b => Cell.le a b) := by
+  rw [rightEdge_eq] at h
+  refine ⟨fun c hc => ?_, Properties.C01.ofCells_sorted h⟩
+  exact mem_rightEdge_rows ((Properties.C01.ofCells_perm h).mem_iff.mp hc)
+
+/-- comparison of cells by evaluation date, as used for the rows of `right_edge` -/
+def evCmp : Cell → Cell → Ordering := cmpOn (·.ev) Date.cmp
+
+instance : TransCmp evCmp := by unfold evCmp; infer_instance
+
+theorem rows_eq (t : List Cell) (ht : Canon t) :
+    rightEdgeRows t = (metasOf t).flatMap fun m =>
+      (groupBy (fun c : Cell => (c.ps, c.pe)) (t.filter (fun c => c.md == m))).filterMap fun q =>
+        lastBy? (leOf evCmp) q.2 := by
+  unfold rightEdgeRows
+  rw [slices_eq ht, List.flatMap_map]
+  rfl
+
+theorem sameRow_iff (a b : Cell) : sameRow a b = true ↔ a.md = b.md ∧ (a.ps, a.pe) = (b.ps, b.pe) := by
+  simp [sameRow, and_assoc]
+
+theorem mem_rows {t : List Cell} (ht : Canon t) {c : Cell} (hc : c ∈ rightEdgeRows t) :
+    ∃ m ∈ metasOf t, ∃ q ∈ groupBy (fun c : Cell => (c.ps, c.pe)) (t.filter (fun c => c.md == m)),
+      lastBy? (leOf evCmp) q.2 = some c ∧
+      q.2 = (t.filter (fun c => c.md == m)).filter (fun c => (c.ps, c.pe) == q.1) := by
+  rw [rows_eq t ht] at hc
+  obtain ⟨m, hm, hc⟩ := List.mem_flatMap.mp hc
+  obtain ⟨q, hq, hl⟩ := List.mem_filterMap.mp hc
+  exact ⟨m, hm, q, hq, hl, ((groupBy_inv _ _).grp q hq).1⟩
+
+/-- **right_edge holds, for each slice and period, exactly the cell with the latest evaluation
+date**: every kept cell is a cell of the triangle whose evaluation date is maximal in its
+(slice, period) row; every row of the triangle is represented; and no two kept cells share a
+row (one per (slice, period)) -/
+theorem rightEdge_spec {t r : List Cell} (ht : Canon t) (h : Triangle.rightEdge t = .ok r) :
+    (∀ c ∈ r, c ∈ t ∧ ∀ c' ∈ t, sameRow c c' = true → c'.ev ≤ c.ev) ∧
+    (∀ c ∈ t, ∃ c' ∈ r, sameRow c' c = true) ∧
+    r.Pairwise (fun a b => sameRow a b = false) := by
+  rw [rightEdge_eq] at h
+  have hperm := Properties.C01.ofCells_perm h
+  obtain ⟨hnd, hmem, hcov⟩ := metasOf_spec t
+  refine ⟨?_, ?_, ?_⟩
+  · intro c hc
+    obtain ⟨m, hm, q, hq, hl, hq2⟩ := mem_rows ht (hperm.mem_iff.mp hc)
+    have hcq : c ∈ q.2 := mem_of_lastBy? hl
+    have hne : q.2 ≠ [] := List.ne_nil_of_mem hcq
+    obtain ⟨c₀, hl₀, _, hmax⟩ := lastBy?_spec (cmp := evCmp) hne
+    have : c₀ = c := by rw [hl₀] at hl; exact Option.some.inj hl
+    subst this
+    rw [hq2] at hcq
+    have h1 := List.mem_filter.mp hcq
+    have h2 := List.mem_filter.mp h1.1
+    refine ⟨h2.1, ?_⟩
+    intro c' hc' hrow
+    have hrow' := (sameRow_iff _ _).mp hrow
+    have hc'q : c' ∈ q.2 := by
+      rw [hq2]
+      refine List.mem_filter.mpr ⟨List.mem_filter.mpr ⟨hc', ?_⟩, ?_⟩
+      · have : c₀.md = m := by simpa using h2.2
+        simp [← hrow'.1, this]
+      · have : (c₀.ps, c₀.pe) = q.1 := by simpa using h1.2
+        simp [← hrow'.2, this]
+    have := hmax c' hc'q
+    show Date.cmp c'.ev c₀.ev ≠ .gt
+    simpa [leOf, evCmp, cmpOn] using this
+  · intro c hc
+    have hcs : c ∈ t.filter (fun x => x.md == c.md) := List.mem_filter.mpr ⟨hc, by simp⟩
+    have inv := groupBy_inv (fun c : Cell => (c.ps, c.pe)) (t.filter (fun x => x.md == c.md))
+    obtain ⟨q, hq, hqk⟩ := List.mem_map.mp (inv.cov c hcs)
+    obtain ⟨hq2, hne⟩ := inv.grp q hq
+    obtain ⟨c', hl, hc'q, _⟩ := lastBy?_spec (cmp := evCmp) hne
+    have hc'r : c' ∈ rightEdgeRows t := by
+      rw [rows_eq t ht]
+      exact List.mem_flatMap.mpr ⟨c.md, hcov c hc, List.mem_filterMap.mpr ⟨q, hq, hl⟩⟩
+    refine ⟨c', hperm.mem_iff.mpr hc'r, ?_⟩
+    rw [hq2] at hc'q
+    have h1 := List.mem_filter.mp hc'q
+    have h2 := List.mem_filter.mp h1.1
+    rw [sameRow_iff]
+    refine ⟨by simpa using h2.2, ?_⟩
+    have : (c'.ps, c'.pe) = q.1 := by simpa using h1.2
+    rw [this, hqk]
+  · have hsymm : ∀ {x y : Cell}, sameRow x y = false → sameRow y x = false := by
+      intro x y hxy
+      cases hyx : sameRow y x with
+      | false => rfl
+      | true =>
+        have := (sameRow_iff _ _).mp hyx
+        have : sameRow x y = true := (sameRow_iff _ _).mpr ⟨this.1.symm, this.2.symm⟩
+        rw [this] at hxy; cases hxy
+    rw [List.Perm.pairwise_iff hsymm hperm, rows_eq t ht, List.pairwise_flatMap]
+    constructor
+    · intro m hm
+      have inv := groupBy_inv (fun c : Cell => (c.ps, c.pe)) (t.filter (fun x => x.md == m))
+      rw [List.pairwise_filterMap]
+      have hk : (groupBy (fun c : Cell => (c.ps, c.pe)) (t.filter (fun x => x.md == m))).Pairwise
+          (fun q q' => q.1 ≠ q'.1) := List.pairwise_map.mp inv.nodup
+      refine hk.imp_of_mem ?_
+      intro q q' hq hq' hne b hb b' hb'
+      have hbq := mem_of_lastBy? hb
+      have hbq' := mem_of_lastBy? hb'
+      rw [(inv.grp q hq).1] at hbq
+      rw [(inv.grp q' hq').1] at hbq'
+      have e1 : (b.ps, b.pe) = q.1 := by simpa using (List.mem_filter.mp hbq).2
+      have e2 : (b'.ps, b'.pe) = q'.1 := by simpa using (List.mem_filter.mp hbq').2
+      cases hs : sameRow b b' with
+      | false => rfl
+      | true =>
+        have := ((sameRow_iff _ _).mp hs).2
+        exact absurd (e1.symm.trans (this.trans e2)) hne
+    · refine (List.nodup_iff_pairwise_ne.mp hnd |>.imp ?_)
+      intro m m' hne x hx y hy
+      obtain ⟨q, hq, hl⟩ := List.mem_filterMap.mp hx
+      obtain ⟨q', hq', hl'⟩ := List.mem_filterMap.mp hy
+      have hxq := mem_of_lastBy? hl
+      have hyq := mem_of_lastBy? hl'
+      rw [((groupBy_inv _ _).grp q hq).1] at hxq
+      rw [((groupBy_inv _ _).grp q' hq').1] at hyq
+      have e1 : x.md = m := by simpa using (List.mem_filter.mp (List.mem_filter.mp hxq).1).2
+      have e2 : y.md = m' := by simpa using (List.mem_filter.mp (List.mem_filter.mp hyq).1).2
+      cases hs : sameRow x y with
+      | false => rfl
+      | true =>
+        have := ((sameRow_iff _ _).mp hs).1
+        exact absurd (e1.symm.trans (this.trans e2)) hne
+
+/-! ### non-vacuity: a concrete canonical triangle meets the hypotheses -/
+
+def exT : List Cell :=
+  [ { ps := ⟨2020, 1, 1⟩, pe := ⟨2020, 12, 31⟩, ev := ⟨2020, 12, 31⟩, values := [("paid_loss", .int 1)] },
+    { ps := ⟨2020, 1, 1⟩, pe := ⟨2020, 12, 31⟩, ev := ⟨2021, 12, 31⟩, values := [("paid_loss", .int 2)] },
+    { ps := ⟨2021, 1, 1⟩, pe := ⟨2021, 12, 31⟩, ev := ⟨2021, 12, 31⟩, values := [("paid_loss", .int 3)] } ]
+
+theorem le_of_same_md {a b : Cell} (hm : a.md = b.md)
+    (h : (compareLex (cmpOn (·.ps) Date.cmp) (compareLex (cmpOn (·.pe) Date.cmp)
+      (compareLex (cmpOn (·.ev) Date.cmp) (cmpOn (·.prev) optDateCmp)))) a b ≠ .gt) :
+    Cell.le a b = true := by
+  unfold Cell.le Cell.cmp
+  simp only [compareLex, cmpOn, hm, ReflCmp.compare_self (cmp := Metadata.cmp), Ordering.eq_then]
+  simpa [compareLex, cmpOn] using h
+
+theorem exT_canon : Canon exT := by
+  refine ⟨?_, by decide⟩
+  simp only [exT, List.pairwise_cons, List.mem_cons, List.not_mem_nil, or_false, forall_eq_or_imp,
+    forall_eq, List.Pairwise.nil, and_true, false_implies, implies_true]
+  refine ⟨⟨?_, ?_⟩, ?_⟩ <;> exact le_of_same_md rfl (by decide)
+
+theorem exT_dates : ∀ c ∈ exT, c.datesOk = true := by decide
+theorem exT_range : ∀ c ∈ exT, Date.min ≤ c.ps ∧ c.ps ≤ Date.max := by decide
+
+/-- the hypotheses of the theorems above hold for a concrete 3-cell triangle, and e.g. the
+complementary-clip theorem then applies to it -/
+example : ∃ lo hi, Triangle.clipFull exT { maxEval := some ⟨2020, 12, 31⟩ } = .ok lo ∧
+    Triangle.clipFull exT { minEval := some (Date.succ ⟨2020, 12, 31⟩) } = .ok hi ∧
+    (lo ++ hi).Perm exT ∧ lo.length + hi.length = exT.length :=
+  clip_complement_partition exT_canon ⟨2020, 12, 31⟩ (by decide) (by decide)
 
 end Bermuda.Properties.C11
